@@ -142,14 +142,17 @@ def main():
     timeout_s = 10 if tier == "quick" else 60
     second = tier == "thorough"
     results, lemma_results = [], []
+    # every unit runs in a child forked from this process for that unit alone: the names generated by the symbolic executor and the
+    # solver's internal term numbering then depend only on the unit, not on which units a worker happened to run before - the same
+    # tree gives the same queries and the same solver behaviour on every run and every machine
     ctx = mp.get_context("fork")
-    with cf.ProcessPoolExecutor(max_workers=min(16, max(1, len(units) + len(lemmas))), mp_context=ctx) as pool:
-        futs = [pool.submit(run_unit, i, timeout_s, second) for i in units]
-        lfuts = [pool.submit(run_lemma, i, timeout_s) for i in lemmas]
+    with ctx.Pool(processes=min(16, max(1, len(units) + len(lemmas))), maxtasksperchild=1) as pool:
+        futs = [pool.apply_async(run_unit, (i, timeout_s, second)) for i in units]
+        lfuts = [pool.apply_async(run_lemma, (i, timeout_s)) for i in lemmas]
         for f in futs:
-            results.append(f.result())
+            results.append(f.get())
         for f in lfuts:
-            lemma_results.append(f.result())
+            lemma_results.append(f.get())
 
     findings = load_known(prop)
     keys_seen = {}
